@@ -378,6 +378,13 @@ class CallMixin:
         site = f"{fr.func.short if fr and fr.func else '?'}"
         ef = Effect("call", cid=cid, method=name, recv=recv, args=tuple(args), kwargs=dict(kwargs), site=site,
                     lineno=0)
+        if isinstance(recv, Sym):
+            ef.recv_tags = self.feasible_tags(recv.path, recv.tags)
+        elif isinstance(recv, Obj):
+            hh = self.hobj(recv)
+            ef.recv_tags = frozenset({hh.cls.short}) if hh.cls is not None else self.feasible_tags(hh.path, hh.tags)
+            ef.kwargs = dict(ef.kwargs)
+            ef.site = ef.site + "|" + hh.path
         spec = CONTRACT_METHODS.get(name) or {"pure": True, "ret": CONTRACT_PROPS.get(name, "any")}
         ret = spec["ret"]
         rp = f"call{cid}"
